@@ -224,4 +224,6 @@ def run(ctx):
     ctx.assume('registers satisfy the C08 range invariant at instruction entry; a port-read tracer returns a byte; Python tracer calls do not raise')
     from sa.rules import memo
     memo.run_for(ctx, repo, 'C06')
+    from sa.rules import fastcopy
+    fastcopy.run(ctx, repo, 'C06.9-fast-copy')
     return report.finish(ctx, EXPLANATION)
